@@ -63,15 +63,29 @@ theorem sarif_index_in_range_partial (file : List Str) (lineno : Nat) (range : L
       ∧ loc.ctx.map (·.startLine) = some (lmin lineno 3) :=
   addRegion_in_range file lineno range col endCol r0 hfile hr hlo hhi hin
 
-/-- **Counter-example without the guard** (known finding): a call spanning lines 1–5 reported on
-line 5 (`shell=True` on the last line).  The snippet index is `1 - 4 = -3`: if the file ends with
-the call, Python raises `IndexError` and no SARIF report is written; with three more lines in the
-file the snippet silently shows line 6 instead of line 1. -/
-theorem NEG_sarif_negative_index :
+/-- **The SARIF location is produced for every finding** (since /repo fix "SARIF snippet index"): for a
+finding reported on any line of a file of well-formed lines, whatever its range, the region is built,
+`startLine` is the first line of the range, the context region starts at the excerpt's first line, and
+the snippet is the excerpt line at that index — absent (not a wrong line, not an `IndexError`) when
+the excerpt starts below the first line of the range. -/
+theorem sarif_region_total (file : List Str) (lineno : Nat) (range : List Nat) (col endCol : Int) (r0 : Nat)
+    (hfile : ∀ t ∈ file, IsLine t) (hr : range.head? = some r0) (h1 : 1 ≤ lineno) (hin : lineno ≤ file.length) :
+    ∃ loc, addRegion range col endCol (getCode file lineno range.length 3 false) = .ok loc
+      ∧ loc.region.startLine = r0
+      ∧ loc.region.snippet = snippetAt (window file (lmin lineno 3) (range.length + 2)) ((r0 : Int) - (lmin lineno 3 : Nat))
+      ∧ loc.ctx.map (·.startLine) = some (lmin lineno 3) :=
+  addRegion_total file lineno range col endCol r0 hfile hr h1 hin
+
+/-- **Regression** (the witnesses of the former known finding C09-sarif-negative-snippet-index): a call
+spanning lines 1–5 reported on line 5.  The snippet index is `1 - 4 = -3`; the pinned code raised
+`IndexError` when the file ended with the call (no SARIF report at all) and showed line 6 as the
+snippet of line 1 otherwise.  The repaired code produces the region without a snippet. -/
+theorem FIXED_sarif_negative_index :
     ¬ (lmin 5 3 ≤ 1) ∧
-    addRegion [1, 2, 3, 4, 5] 0 13 (getCode (srcLines 5) 5 5 3 false) = .error .indexError ∧
+    (addRegion [1, 2, 3, 4, 5] 0 13 (getCode (srcLines 5) 5 5 3 false)).toOption.map
+        (fun loc => (loc.region.startLine, loc.region.snippet)) = some (1, none) ∧
     (addRegion [1, 2, 3, 4, 5] 0 13 (getCode (srcLines 8) 5 5 3 false)).toOption.map
-        (fun loc => (loc.region.startLine, loc.region.snippet)) = some (1, some "l6\n".toList) := by
+        (fun loc => (loc.region.startLine, loc.region.snippet)) = some (1, none) := by
   refine ⟨by decide, by decide, by decide⟩
 
 /-! ### Records -/
